@@ -144,7 +144,7 @@ CHECKS["C04"] = dict(
     level="fault_enumeration",
     rule=("rapid-generated workloads of 3-15 steps (autocommit Set/Delete, Begin, transactional writes, multi-key Commit, Rollback, collector runs, overwrites so the cleaner has work; 1-2 roots) run in a child process; "
           "a hook counts persistent mutation points (file create/write/close/remove, mkdir, Badger set/delete/transaction before and after) across all goroutines and the child SIGKILLs itself at the n-th: EVERY n from 1 to the count of the uncrashed run (+2) is enumerated per workload; "
-          "for a sample of crash points every crash index inside the recovery open is enumerated on copies of the crashed directory. "
+          "for a sample of crash points every crash index inside the recovery open is enumerated on copies of the crashed directory; and for every step of the workload the child is killed the moment that step has been acknowledged (whatever is still on its way in the background, the step is in effect). "
           "Oracle: the parent knows the acknowledged prefix and the at most one in-flight step from the pipe; after a clean reopen GetKeys/Get of all keys must equal the model after the prefix, or after prefix + in-flight step (autocommit write or Commit: all keys together or none); every listed key readable and complete; a second reopen gives the same state. "
           "Sets/Deletes inside a running Badger transaction are mutation points too (nothing of the transaction may be visible after a kill there); half of the workloads contain an 'overtaken commit' fragment (a ReadUncommitted/ReadCommitted transaction writes, somebody commits a newer value, the transaction commits). "
           "part 'bulk': one transaction writes 40-600 fresh keys with names of 20-40 KB, so that its version records approach or exceed what one Badger transaction holds (about 10 MB; fs_db then refuses the Commit as a whole, which the child acknowledges as failed); crash points are sampled: 6-10 inside the Commit plus as many over the rest of the run. "
